@@ -34,14 +34,18 @@ def confirm(d):
             return 1
         # the demonstration: a Go test file copied into pkg/ (fails with the patch, passes without)
         demos = [f for f in os.listdir(d) if f.endswith("_test.go")]
+        target = "pkg"
         for f in demos:
-            dst = os.path.join(wt, "pkg", "zz_" + os.path.basename(d).replace("-", "_") + "_" + f)
-            open(dst, "w").write(open(os.path.join(d, f)).read())
+            src = open(os.path.join(d, f)).read()
+            if "\npackage main" in "\n" + src or "./cmd" in src:
+                target = "cmd"
+            dst = os.path.join(wt, target, "zz_" + os.path.basename(d).replace("-", "_") + "_" + f)
+            open(dst, "w").write(src)
         if demos:
-            r1 = sh("go test -vet=off -count=1 -timeout 300s ./pkg/ 2>&1 | tail -5", cwd=wt)
+            r1 = sh("go test -vet=off -count=1 -timeout 300s ./%s/ 2>&1 | tail -5" % target, cwd=wt)
             with_patch_fails = "FAIL" in r1.stdout
             sh("git apply -R %s" % os.path.join(os.path.abspath(d), "patch.diff"), cwd=wt)
-            r2 = sh("go test -vet=off -count=1 -timeout 300s ./pkg/ 2>&1 | tail -5", cwd=wt)
+            r2 = sh("go test -vet=off -count=1 -timeout 300s ./%s/ 2>&1 | tail -5" % target, cwd=wt)
             without_passes = "FAIL" not in r2.stdout and "ok" in r2.stdout
             print(os.path.basename(d), "DEMO with patch fails:", with_patch_fails, "| without patch passes:", without_passes)
             if not (with_patch_fails and without_passes):
